@@ -1988,3 +1988,38 @@ for _n in NATIVE.values(): _n.module = 'contracts.fingroups'
 
 def native_names(tier):
     return [n.name for n in NATIVE.values() if tier != 'quick' or not getattr(n, 'thorough_only', False)]
+
+
+# ---------------------------------------------------------------- robustness of the input enumeration
+# Input generators read group parameters (p, order, gap) from the real constructors.  When a constructor raises (an edit that
+# breaks a parameter set), the enumeration itself is the failing obligation: it is reported as a violation with a faithful replay
+# (the replay re-runs the enumeration) instead of crashing the check.
+def _robust(n):
+    gen, call, check = n.inputs, n.call, n.check
+
+    def inputs(tier):
+        it = iter(gen(tier))
+        while True:
+            try:
+                a = next(it)
+            except StopIteration:
+                return
+            except Exception:                         # noqa
+                yield ('INPUT-ENUMERATION', n.name, tier)
+                return
+            yield a
+
+    def call2(*args):
+        if args and args[0] == 'INPUT-ENUMERATION':
+            for _ in gen(args[2]): pass
+            return 'enumeration ok'
+        return call(*args)
+
+    def check2(args, res, exc):
+        if args and args[0] == 'INPUT-ENUMERATION':
+            return (exc is None and res == 'enumeration ok') or f'the group constructors raise while the input domain is enumerated: {type(exc).__name__}: {exc}'
+        return check(args, res, exc)
+    n.inputs, n.call, n.check = inputs, call2, check2
+
+
+for _n in NATIVE.values(): _robust(_n)
